@@ -176,117 +176,342 @@ def lean_nats(bs):
     return "[" + ", ".join(str(b) for b in bs) + "]"
 
 
-def local_names(body, sig, types):
-    """Names of the parameters with the given (squashed) types, and of the `let mut <buf> = Vec::…` buffer."""
-    names = []
-    for ty in types:
-        m = re.search(r"(\w+)\s*:\s*" + re.escape(ty).replace(r"\ ", r"\s*") + r"\s*[,)]", sig + ")")
+def blank_strings(text):
+    """Same length, string-literal contents replaced by spaces (so `?`, braces, names inside messages are invisible)."""
+    out, i, n = list(text), 0, len(text)
+    while i < n:
+        if text[i] == '"':
+            j = i + 1
+            while j < n and text[j] != '"':
+                if text[j] == "\\":
+                    out[j] = " "
+                    j += 1
+                if j < n:
+                    out[j] = " " if text[j] != "\n" else "\n"
+                j += 1
+            i = j + 1
+        else:
+            i += 1
+    return "".join(out)
+
+
+def match_close(text, open_idx):
+    """Index of the bracket closing the one at open_idx ((), [] or {}), strings skipped."""
+    pairs = {"(": ")", "[": "]", "{": "}"}
+    depth, i, n = 0, open_idx, len(text)
+    while i < n:
+        c = text[i]
+        if c == '"':
+            j = i + 1
+            while j < n and text[j] != '"':
+                j += 2 if text[j] == "\\" else 1
+            i = j + 1
+            continue
+        if c in pairs:
+            depth += 1
+        elif c in pairs.values():
+            depth -= 1
+            if depth == 0:
+                return i
+        i += 1
+    die("unbalanced brackets")
+
+
+def split_args(text):
+    """Top-level comma separated arguments."""
+    args, depth, cur, i = [], 0, [], 0
+    while i < len(text):
+        c = text[i]
+        if c == '"':
+            j = i + 1
+            while j < len(text) and text[j] != '"':
+                j += 2 if text[j] == "\\" else 1
+            cur.append(text[i:j + 1])
+            i = j + 1
+            continue
+        if c in "([{<" and not (c == "<" and depth == 0 and False):
+            depth += c in "([{"
+        elif c in ")]}":
+            depth -= 1
+        if c == "," and depth == 0:
+            args.append("".join(cur).strip())
+            cur = []
+        else:
+            cur.append(c)
+        i += 1
+    if "".join(cur).strip():
+        args.append("".join(cur).strip())
+    return args
+
+
+def params_of(sig):
+    """[(name, squashed type)] of a fn signature text `fn name(...)`."""
+    ob = sig.index("(")
+    cb = match_close(sig, ob)
+    out = []
+    for a in split_args(sig[ob + 1:cb]):
+        m = re.fullmatch(r"(?:mut\s+)?(\w+)\s*:\s*(.+)", a, re.S)
+        if m:
+            out.append((m.group(1), squash(m.group(2))))
+    return out
+
+
+def private_fns(src):
+    """name -> (params, body) of every free, non-pub fn outside the tests (candidates for inlining)."""
+    cut = src.find("#[cfg(test)]")
+    hay = src if cut < 0 else src[:cut]
+    out = {}
+    for m in re.finditer(r"(?m)^(?P<ind>[ \t]*)(?P<vis>pub(?:\([^)]*\))?\s+)?(?:async\s+)?fn\s+(?P<name>\w+)\s*(?:<[^>{(]*>)?\s*\(", hay):
+        if m.group("vis") or m.group("ind"):
+            continue  # only top-level private helpers
+        ob_par = hay.index("(", m.end() - 1)
+        cb_par = match_close(hay, ob_par)
+        ob = hay.index("{", cb_par)
+        cb = match_close(hay, ob)
+        out[m.group("name")] = (params_of(hay[m.start():ob]), hay[ob + 1:cb])
+    return out
+
+
+def inline_private(body, fns, keep, depth=0, stack=()):
+    """Textually inlines calls of top-level private helpers (except `keep`), substituting parameters by the
+    argument expressions (`&mut x` / `&x` arguments are auto-dereferenced before a `.`), so that the same
+    effects are seen in the same order whether or not a block was extracted into a helper."""
+    if depth > 4:
+        return body
+    out, i = [], 0
+    pat = re.compile(r"(?<![\w.:])([A-Za-z_]\w*)\s*\(")
+    while True:
+        m = pat.search(body, i)
         if not m:
-            die(f"parameter of type {ty} not found in `{norm(sig)[:80]}`")
-        names.append(m.group(1))
-    m = re.search(r"let\s+mut\s+(\w+)\s*(?::\s*Vec<u8>)?\s*=\s*Vec::", body)
-    if not m:
-        die("no `let mut <buf> = Vec::…` buffer")
-    return names, m.group(1)
+            out.append(body[i:])
+            break
+        name = m.group(1)
+        before = body[max(0, m.start() - 4):m.start()]
+        if name not in fns or name in keep or name in stack or before.rstrip().endswith("fn"):
+            out.append(body[i:m.end()])
+            i = m.end()
+            continue
+        cb = match_close(body, m.end() - 1)
+        args = split_args(body[m.end():cb])
+        params, fbody = fns[name]
+        if len(args) != len(params):
+            out.append(body[i:m.end()])
+            i = m.end()
+            continue
+        # avoid capturing: rename the helper's own parameters first
+        sub = fbody
+        for k, (pn, _) in enumerate(params):
+            sub = re.sub(r"\b" + re.escape(pn) + r"\b", f"\x00P{k}\x00", sub)
+        for k, arg in enumerate(args):
+            base = re.sub(r"^&\s*(mut\s+)?", "", arg).strip()
+            simple = re.fullmatch(r"[\w.]+", base) is not None
+            sub = re.sub("\x00P%d\x00(?=\\s*\\.)" % k, base if simple else f"({arg})", sub)
+            sub = sub.replace(f"\x00P{k}\x00", arg if re.fullmatch(r"&?\s*(mut\s+)?[\w.()]+", arg) else f"({arg})")
+        sub = inline_private(sub, fns, keep, depth + 1, stack + (name,))
+        out.append(body[i:m.start()] + "{ " + sub + " }")
+        i = cb + 1
+    return "".join(out)
 
 
 def canon(text, mapping):
     """Renames locals to the canonical names the patterns below use (whole identifiers only)."""
-    for old, new in mapping.items():
+    tmp = {}
+    for k, (old, new) in enumerate(mapping.items()):
         if old != new:
-            if re.search(r"\b" + re.escape(new) + r"\b", text):
-                die(f"cannot canonicalise local `{old}` to `{new}`: `{new}` is also in use")
-            text = re.sub(r"\b" + re.escape(old) + r"\b", new, text)
+            tmp[f"\x01{k}\x01"] = new
+            text = re.sub(r"\b" + re.escape(old) + r"\b", f"\x01{k}\x01", text)
+    for t, new in tmp.items():
+        if re.search(r"\b" + re.escape(new) + r"\b", text):
+            die(f"cannot canonicalise a local to `{new}`: `{new}` is also in use for something else")
+        text = text.replace(t, new)
     return text
 
 
-def translate_meta_aad(body, sig, buf="aad"):
-    (loc, meta), b = local_names(body, sig, ["&Path", "&Metadata"])
-    body = canon(body, {b: "aad", loc: "location", meta: "meta"})
-    items = []
-    for st in split_statements(body):
-        s = squash(st)
-        if re.fullmatch(r"letmut%s(:Vec<u8>)?=Vec::(new\(\)|with_capacity\(\d+\))" % buf, s):
-            continue
-        if s == buf:
-            continue
-        m = re.fullmatch(r'%s\.extend_from_slice\((b"[^"]*")\)' % buf, s)
+def param_by_type(sig, ty, what):
+    ps = [n for n, t in params_of(sig) if t == squash(ty)]
+    if len(ps) != 1:
+        die(f"{what}: expected exactly one parameter of type {ty}, found {ps}")
+    return ps[0]
+
+
+def buffer_name(body, what):
+    m = re.search(r"let\s+mut\s+(\w+)\s*(?::\s*Vec<u8>)?\s*=\s*Vec::(?:new\(\)|with_capacity\([^)]*\))", body)
+    if not m:
+        die(f"{what}: no `let mut <buf> = Vec::…` buffer")
+    return m.group(1)
+
+
+SCOPE_PATTERNS = [
+    # (kind, regex with groups var / field, what closes it)
+    ("each", r"for\s+(?P<var>\w+)\s+in\s+&?\s*meta\.(?P<f>\w+)\s*(?:\.iter\(\))?\s*\{", "{"),
+    ("each", r"meta\s*\.\s*(?P<f>\w+)\s*\.iter\(\)\s*\.for_each\(\s*(?:move\s+)?\|\s*(?P<var>\w+)\s*\|", "("),
+    ("some", r"if\s+let\s+Some\(\s*(?:ref\s+)?(?P<var>\w+)\s*\)\s*=\s*&?\s*meta\.(?P<f>\w+)\s*(?:\.as_ref\(\)|\.as_deref\(\))?\s*\{", "{"),
+]
+
+
+def aad_events(body, buf, resolve_direct, what):
+    """Every write to `buf` in textual order: [(pos, scope or None, kind, detail)].
+    Scopes: iteration over a `meta.<f>` collection, or `Some(v)` of an optional `meta.<f>`."""
+    scopes = []  # (start, end, kind, var, field)
+    for kind, rx, closer in SCOPE_PATTERNS:
+        for m in re.finditer(rx, body):
+            if closer == "{":
+                end = match_close(body, m.end() - 1)
+            else:
+                ob = body.index("(", body.index("for_each", m.start()))
+                end = match_close(body, ob)
+            scopes.append((m.start(), end, kind, m.group("var"), m.group("f")))
+    # match &meta.f { Some(v) => …, None => … }
+    for m in re.finditer(r"match\s+&?\s*meta\.(?P<f>\w+)\s*(?:\.as_ref\(\)|\.as_deref\(\))?\s*\{", body):
+        end = match_close(body, m.end() - 1)
+        arm = re.search(r"Some\(\s*(?:ref\s+)?(?P<var>\w+)\s*\)\s*=>\s*", body[m.end():end])
+        if arm:
+            a0 = m.end() + arm.end()
+            if body[a0] == "{":
+                a1 = match_close(body, a0)
+            else:
+                a1 = a0
+                depth = 0
+                while a1 < end and not (body[a1] == "," and depth == 0):
+                    depth += body[a1] in "([{"
+                    depth -= body[a1] in ")]}"
+                    a1 += 1
+            scopes.append((a0, a1, "some", arm.group("var"), m.group("f")))
+
+    def scope_at(pos):
+        inner = [sc for sc in scopes if sc[0] <= pos <= sc[1]]
+        if len(inner) > 1:
+            die(f"{what}: nested optional/iteration scopes are not understood")
+        return inner[0] if inner else None
+
+    def resolve(expr, sc):
+        e = squash(expr)
+        m = re.search(r"\bmeta\.(\w+)", e)
         if m:
-            items.append(f".lit {lean_nats(lit_bytes(m.group(1)))}")
+            return ("field", m.group(1), e)
+        if sc and re.match(r"^[&*(]*" + re.escape(sc[3]) + r"\b", e):
+            return ("bound", sc[4], e)
+        r = resolve_direct(e)
+        if r:
+            return ("field", r, e)
+        die(f"{what}: cannot tell what `{norm(expr)[:80]}` is")
+
+    events = []
+    b = re.escape(buf)
+    for m in re.finditer(r"\b(push_bytes|push_opt_str|push_opt_u64|push_opt_u8)\s*\(\s*&mut\s+" + b + r"\s*,", body):
+        cb = match_close(body, body.index("(", m.start()))
+        arg = body[m.end():cb]
+        sc = scope_at(m.start())
+        events.append((m.start(), sc, m.group(1), resolve(arg, sc)))
+    for m in re.finditer(b + r"\s*\.\s*extend_from_slice\s*\(", body):
+        cb = match_close(body, m.end() - 1)
+        arg = body[m.end():cb].strip()
+        sc = scope_at(m.start())
+        if re.fullmatch(r'b"[^"]*"', arg):
+            events.append((m.start(), sc, "lit", lit_bytes(arg)))
             continue
-        m = re.fullmatch(r"push_bytes\(&mut%s,location\.to_string\(\)\.as_bytes\(\)\)" % buf, s)
-        if m:
-            items.append(".pushBytes .location")
+        e = squash(arg)
+        mm = re.fullmatch(r"&\((.+)\.len\(\)asu64\)\.to_le_bytes\(\)", e)
+        if mm:
+            events.append((m.start(), sc, "lenLe64", resolve(mm.group(1), sc)))
             continue
-        m = re.fullmatch(r"push_bytes\(&mut%s,meta\.(\w+)\.as_slice\(\)\)" % buf, s)
-        if m:
-            items.append(f".pushBytes {field(m.group(1))}")
+        mm = re.fullmatch(r"&(.+)\.to_le_bytes\(\)", e)
+        if mm:
+            events.append((m.start(), sc, "le64", resolve(mm.group(1), sc)))
             continue
-        m = re.fullmatch(r"%s\.extend_from_slice\(&meta\.(\w+)\.to_le_bytes\(\)\)" % buf, s)
-        if m:
-            items.append(f".le64 {field(m.group(1))}")
+        die(f"{what}: write to the buffer not understood: {norm(body[m.start():cb + 1])[:120]}")
+    events.sort(key=lambda ev: ev[0])
+    # every mention of the buffer must be accounted for: declaration, the writes above, the returned value
+    mentions = len(re.findall(r"\b" + b + r"\b", body))
+    if mentions != len(events) + 2:
+        die(f"{what}: the buffer `{buf}` is used {mentions} times but only {len(events)} writes (+ declaration + result) are understood")
+    if not re.search(r"(?:return\s+)?\b" + b + r"\s*;?\s*$", body.strip()):
+        die(f"{what}: the buffer is not the result")
+    return events
+
+
+def translate_meta_aad(body, sig, fns):
+    loc = param_by_type(sig, "&Path", "metadata_auth_aad")
+    meta = param_by_type(sig, "&Metadata", "metadata_auth_aad")
+    body = inline_private(body, fns, keep={"push_bytes", "push_opt_str", "push_opt_u64", "push_opt_u8"})
+    buf = buffer_name(body, "metadata_auth_aad")
+    body = canon(body, {buf: "aad", loc: "location", meta: "meta"})
+
+    def direct(e):
+        return "location" if re.search(r"\blocation\b", e) else None
+
+    events = aad_events(body, "aad", direct, "metadata_auth_aad")
+    items, k = [], 0
+    while k < len(events):
+        pos, sc, kind, det = events[k]
+        if sc is None:
+            if kind == "lit":
+                items.append(f".lit {lean_nats(det)}")
+            elif kind == "push_bytes":
+                items.append(f".pushBytes {field(det[1])}")
+            elif kind == "push_opt_str":
+                items.append(f".optStr {field(det[1])}")
+            elif kind == "push_opt_u64":
+                items.append(f".optU64 {field(det[1])}")
+            elif kind == "push_opt_u8":
+                items.append(f".optU8 {field(det[1])}")
+            elif kind == "le64":
+                items.append(f".le64 {field(det[1])}")
+            elif kind == "lenLe64":
+                items.append(f".lenLe64 {field(det[1])}")
+            k += 1
             continue
-        m = re.fullmatch(r"push_opt_str\(&mut%s,meta\.(\w+)\.as_deref\(\)\)" % buf, s)
-        if m:
-            items.append(f".optStr {field(m.group(1))}")
-            continue
-        m = re.fullmatch(r"push_opt_u64\(&mut%s,meta\.(\w+)\)" % buf, s)
-        if m:
-            items.append(f".optU64 {field(m.group(1))}")
-            continue
-        m = re.fullmatch(r"push_opt_u8\(&mut%s,meta\.(\w+)\)" % buf, s)
-        if m:
-            items.append(f".optU8 {field(m.group(1))}")
-            continue
-        m = re.fullmatch(r"%s\.extend_from_slice\(&\(meta\.(\w+)\.len\(\)asu64\)\.to_le_bytes\(\)\)" % buf, s)
-        if m:
-            items.append(f".lenLe64 {field(m.group(1))}")
-            continue
-        m = re.fullmatch(r"for(\w+)in&meta\.(\w+)\{push_bytes\(&mut%s,(\w+)\.as_slice\(\)\);?\}" % buf, s)
-        if m and m.group(1) == m.group(3):
-            items.append(f".eachPushBytes {field(m.group(2))}")
-            continue
-        m = re.fullmatch(r'ifletSome\((\w+)\)=&?meta\.(\w+)\{%s\.extend_from_slice\((b"[^"]*")\);'
-                         r'push_bytes\(&mut%s,(\w+)\.as_bytes\(\)\);?\}' % (buf, buf), s)
-        if m and m.group(1) == m.group(4):
-            items.append(f".ifSomeBytes {field(m.group(2))} {lean_nats(lit_bytes(m.group(3)))}")
-            continue
-        m = re.fullmatch(r'ifletSome\((\w+)\)=&?meta\.(\w+)\{%s\.extend_from_slice\((b"[^"]*")\);'
-                         r'%s\.extend_from_slice\(&(\w+)\.to_le_bytes\(\)\);?\}' % (buf, buf), s)
-        if m and m.group(1) == m.group(4):
-            items.append(f".ifSomeU64 {field(m.group(2))} {lean_nats(lit_bytes(m.group(3)))}")
-            continue
-        die(f"metadata_auth_aad: statement not understood: {norm(st)[:160]}")
+        group = [ev for ev in events if ev[1] is sc]
+        k += len(group)
+        shape = [(g[2], g[3][0] if g[2] != "lit" else None) for g in group]
+        if sc[2] == "each":
+            if shape != [("push_bytes", "bound")]:
+                die(f"metadata_auth_aad: loop over meta.{sc[4]} does something else than push_bytes(element)")
+            items.append(f".eachPushBytes {field(sc[4])}")
+        else:
+            if shape == [("lit", None), ("push_bytes", "bound")]:
+                items.append(f".ifSomeBytes {field(sc[4])} {lean_nats(group[0][3])}")
+            elif shape == [("lit", None), ("le64", "bound")]:
+                items.append(f".ifSomeU64 {field(sc[4])} {lean_nats(group[0][3])}")
+            else:
+                die(f"metadata_auth_aad: optional block on meta.{sc[4]} not understood: {shape}")
     if not items:
         die("metadata_auth_aad: empty layout")
     return items
 
 
-def translate_chunk_aad(body, sig):
-    params = re.findall(r"(\w+)\s*:\s*u64", sig)
-    if len(params) != 2:
-        die(f"chunk_aad: expected two u64 parameters (chunk size, chunk index), found {params}")
-    _, b = local_names(body, sig, [])
-    body = canon(body, {b: "aad", params[0]: "chunk_size", params[1]: "chunk_index"})
+def translate_chunk_aad(body, sig, fns):
+    params = [n for n, t in params_of(sig) if t == "u64"]
+    if len(params) != 2 or len(params_of(sig)) != 2:
+        die(f"chunk_aad: expected two u64 parameters (chunk size, chunk index), found {params_of(sig)}")
+    body = inline_private(body, fns, keep=set())
+    buf = buffer_name(body, "chunk_aad")
+    body = canon(body, {buf: "aad", params[0]: "chunk_size", params[1]: "chunk_index"})
+
+    def direct(e):
+        m = re.search(r"\b(chunk_size|chunk_index)\b", e)
+        return m.group(1) if m else None
+
     items = []
-    for st in split_statements(body):
-        s = squash(st)
-        if re.fullmatch(r"letmutaad(:Vec<u8>)?=Vec::(new\(\)|with_capacity\(\d+\))", s) or s == "aad":
-            continue
-        m = re.fullmatch(r'aad\.extend_from_slice\((b"[^"]*")\)', s)
-        if m:
-            items.append(f".lit {lean_nats(lit_bytes(m.group(1)))}")
-            continue
-        m = re.fullmatch(r"aad\.extend_from_slice\(&(chunk_size|chunk_index)\.to_le_bytes\(\)\)", s)
-        if m:
-            items.append(".le64ChunkSize" if m.group(1) == "chunk_size" else ".le64ChunkIndex")
-            continue
-        die(f"chunk_aad: statement not understood: {norm(st)[:160]}")
+    for pos, sc, kind, det in aad_events(body, "aad", direct, "chunk_aad"):
+        if sc is not None:
+            die("chunk_aad: conditional / repeated write")
+        if kind == "lit":
+            items.append(f".lit {lean_nats(det)}")
+        elif kind == "le64" and det[1] in ("chunk_size", "chunk_index"):
+            items.append(".le64ChunkSize" if det[1] == "chunk_size" else ".le64ChunkIndex")
+        else:
+            die(f"chunk_aad: write not understood: {kind} {det}")
     return items
 
 
 def translate_push_helper(name, body, sig):
     """Returns a Lean `Shape` term list (or a pair for the Option helpers)."""
+    ps = params_of(sig)
+    if len(ps) != 2 or ps[0][1] != "&mutVec<u8>":
+        die(f"{name}: signature changed: {ps}")
+    body = canon(body, {ps[0][0]: "out", ps[1][0]: "value"})
+
     def seq(text, var):
         out = []
         for st in split_statements(text):
@@ -297,9 +522,9 @@ def translate_push_helper(name, body, sig):
                 out.append(".raw")
             elif re.fullmatch(r"out\.extend_from_slice\(&%s\.to_le_bytes\(\)\)" % var, s):
                 out.append(".valLe64")
-            elif re.fullmatch(r"out\.push\(%s\)" % var, s):
+            elif re.fullmatch(r"out\.push\(\*?%s\)" % var, s):
                 out.append(".valByte")
-            elif (m := re.fullmatch(r"out\.push\((\d+)\)", s)):
+            elif (m := re.fullmatch(r"out\.push\((\d+)(?:u8)?\)", s)):
                 out.append(f".byte {m.group(1)}")
             elif re.fullmatch(r"push_bytes\(out,%s\.as_bytes\(\)\)" % var, s):
                 out.append(".pushBytes")
@@ -308,39 +533,87 @@ def translate_push_helper(name, body, sig):
         return out
 
     if name == "push_bytes":
-        if "value: &[u8]" not in norm(sig):
+        if ps[1][1] != "&[u8]":
             die("push_bytes: signature changed")
         return "[" + ", ".join(seq(body, "value")) + "]"
-    sts = split_statements(body)
-    if len(sts) != 1 or not squash(sts[0]).startswith("matchvalue{"):
-        die(f"{name}: expected a single `match value`")
-    inner = sts[0][sts[0].index("{") + 1:sts[0].rindex("}")]
-    m_some = re.search(r"Some\s*\(\s*(\w+)\s*\)\s*=>\s*\{", inner)
-    if not m_some:
-        die(f"{name}: no `Some(..) => {{` arm")
-    ob = inner.index("{", m_some.start())
-    cb = match_brace(inner, ob)
-    some_seq = seq(inner[ob + 1:cb], m_some.group(1))
-    rest = inner[cb + 1:]
-    m_none = re.search(r"None\s*=>\s*([^,}]+)", rest) or re.search(r"None\s*=>\s*([^,}]+)", inner[:m_some.start()])
-    if not m_none:
-        die(f"{name}: no `None =>` arm")
-    none_seq = seq(m_none.group(1).strip() + ";", "value")
+    text = body.strip()
+    some_seq = none_seq = None
+    m = re.match(r"match\s+value\s*\{", text)
+    if m:
+        end = match_close(text, m.end() - 1)
+        if text[end + 1:].strip(" ;\n"):
+            die(f"{name}: statements after the `match value`")
+        inner = text[m.end():end]
+        for arm in re.finditer(r"(Some\s*\(\s*(\w+)\s*\)|None)\s*=>\s*", inner):
+            a0 = arm.end()
+            if inner[a0] == "{":
+                a1 = match_close(inner, a0)
+                arm_body = inner[a0 + 1:a1]
+            else:
+                a1 = a0
+                depth = 0
+                while a1 < len(inner) and not (inner[a1] == "," and depth == 0):
+                    depth += inner[a1] in "([{"
+                    depth -= inner[a1] in ")]}"
+                    a1 += 1
+                arm_body = inner[a0:a1] + ";"
+            if arm.group(1).startswith("Some"):
+                some_seq = seq(arm_body, arm.group(2))
+            else:
+                none_seq = seq(arm_body, "value")
+    else:
+        m = re.match(r"if\s+let\s+Some\s*\(\s*(\w+)\s*\)\s*=\s*value\s*\{", text)
+        if m:
+            end = match_close(text, m.end() - 1)
+            some_seq = seq(text[m.end():end], m.group(1))
+            rest = text[end + 1:].strip()
+            me = re.match(r"else\s*\{", rest)
+            if not me:
+                die(f"{name}: no else branch")
+            e1 = match_close(rest, me.end() - 1)
+            none_seq = seq(rest[me.end():e1], "value")
+    if some_seq is None or none_seq is None:
+        die(f"{name}: expected `match value {{ Some(..) => .., None => .. }}` (or if-let/else)")
     return "⟨[" + ", ".join(some_seq) + "], [" + ", ".join(none_seq) + "]⟩"
 
 
 def translate_nonce(body, sig):
-    s = squash(body)
-    if "base:&[u8;12]" not in squash(sig) or "idx:u64" not in squash(sig) or "->[u8;12]" not in squash(sig):
+    ps = params_of(sig)
+    if [t for _, t in ps] != ["&[u8;12]", "u64"] or "->[u8;12]" not in squash(sig):
         die("derive_gcm_nonce: signature changed")
-    m = re.search(r"ctr\.copy_from_slice\(&nonce\[(\d+)\.\.(\d+)\]\)", s)
-    m2 = re.search(r"nonce\[(\d+)\.\.(\d+)\]\.copy_from_slice\(&c\.to_le_bytes\(\)\)", s)
-    m3 = re.search(r"letc=u64::from_(le|be)_bytes\(ctr\)\.(\w+)\(idx\)", s)
-    if not (m and m2 and m3 and "letmutnonce=*base" in s and s.endswith("nonce")):
-        die("derive_gcm_nonce: body not understood")
-    if (m.group(1), m.group(2)) != (m2.group(1), m2.group(2)):
+    body = canon(body, {ps[0][0]: "base", ps[1][0]: "idx"})
+    s = squash(body)
+    m0 = re.search(r"letmut(\w+)(?::\[u8;12\])?=\*base;", s)
+    if not m0:
+        die("derive_gcm_nonce: the nonce is not a copy of the base")
+    n = m0.group(1)
+    # the counter value: from_le_bytes of a window of the nonce (through a temporary array or directly)
+    m3 = re.search(r"let(\w+)(?::u64)?=u64::from_(le|be)_bytes\((.+?)\)\.(\w+)\(idx\);", s)
+    if not m3:
+        die("derive_gcm_nonce: body not understood (no `u64::from_*_bytes(..).<op>(idx)`)")
+    cvar, endian, src_expr, op = m3.group(1), m3.group(2), m3.group(3), m3.group(4)
+    mw = re.fullmatch(re.escape(n) + r"\[(\d+)\.\.(\d+)\]\.try_into\(\)\.(?:unwrap|expect)\(.*\)", src_expr)
+    if mw:
+        window = (mw.group(1), mw.group(2))
+    else:
+        mt = re.search(re.escape(src_expr) + r"\.copy_from_slice\(&" + re.escape(n) + r"\[(\d+)\.\.(\d+)\]\)", s)
+        if not (re.fullmatch(r"\w+", src_expr) and mt):
+            die("derive_gcm_nonce: body not understood (where does the counter come from?)")
+        window = (mt.group(1), mt.group(2))
+    m2 = re.search(re.escape(n) + r"\[(\d+)\.\.(\d+)\]\.copy_from_slice\(&" + re.escape(cvar) + r"\.to_(le|be)_bytes\(\)\)", s)
+    if not m2:
+        die("derive_gcm_nonce: body not understood (counter is not written back)")
+    if (m2.group(1), m2.group(2)) != window:
         die("derive_gcm_nonce: counter is read from and written to different windows")
-    return int(m.group(1)), int(m.group(2)), m3.group(1), m3.group(2)
+    if m2.group(3) != endian:
+        die("derive_gcm_nonce: counter is read and written with different endianness")
+    if not re.search(r"(?:return)?" + re.escape(n) + r";?$", s):
+        die("derive_gcm_nonce: the nonce is not the result")
+    # nothing else may write the nonce
+    writes = len(re.findall(re.escape(n) + r"\[[^\]]*\](?:\.copy_from_slice|=[^=])", s))
+    if writes != 1:
+        die(f"derive_gcm_nonce: {writes} writes to the nonce, expected one")
+    return int(window[0]), int(window[1]), endian, op
 
 
 TYPE_CLASS = [
@@ -374,45 +647,147 @@ def translate_struct(src):
     return fields
 
 
-def translate_guard(body):
-    """Fields tested in the `(None, None)` arm of verify_metadata before legacy acceptance."""
-    m = re.search(r"\(\s*None\s*,\s*None\s*\)\s*=>\s*\{", body)
+def arm_body(text, start, end):
+    """(body text, end index) of a match arm whose `=>` ends at `start` (inside text[:end])."""
+    a0 = start
+    while a0 < end and text[a0].isspace():
+        a0 += 1
+    if text[a0] == "{":
+        a1 = match_close(text, a0)
+        return text[a0 + 1:a1], a1
+    a1, depth = a0, 0
+    while a1 < end and not (text[a1] == "," and depth == 0):
+        depth += text[a1] in "([{"
+        depth -= text[a1] in ")]}"
+        a1 += 1
+    return text[a0:a1], a1
+
+
+def reject_if(block, what):
+    """First `if` of `block`: (position, fields tested, True) when it rejects (`Err`) if any of the optional
+    metadata fields is present — spelled `a.is_some() || b.is_some() { Err }` or inverted
+    `a.is_none() && b.is_none() { … } else { Err }`."""
+    m = re.search(r"\bif\s+(?!let\b)", block)
     if not m:
-        die("verify_metadata: no `(None, None) => {` arm")
-    ob = body.index("{", m.start())
-    cb = match_brace(body, ob)
-    arm = body[ob + 1:cb]
-    sts = split_statements(arm)
-    # first statement must be the downgrade guard, second the strict-mode rejection
-    g = squash(sts[0]) if sts else ""
-    mg = re.match(r"if((?:meta\.\w+\.is_some\(\)\|\|)*meta\.\w+\.is_some\(\))\{returnErr\(", g)
-    if not mg:
-        die("verify_metadata: the stripped-field guard is not the first statement of the (None, None) arm")
-    fields = re.findall(r"meta\.(\w+)\.is_some\(\)", mg.group(1))
-    if len(sts) < 2 or not squash(sts[1]).startswith("ifstrict{returnErr("):
-        die("verify_metadata: strict-mode rejection does not follow the stripped-field guard")
-    order = ["guard", "strict"]
-    for st in sts[2:]:
-        s = squash(st)
-        if s.startswith("chunk_aad_version(meta)?"):
-            order.append("aadVersion")
-        elif s.startswith("log::warn!"):
-            continue
-        elif s.startswith("returnOk(MetadataAuth::Legacy)"):
-            order.append("legacy")
-        else:
-            die(f"verify_metadata: statement not understood in the legacy arm: {norm(st)[:100]}")
+        die(f"{what}: no guard `if`")
+    ob = m.end()
+    depth = 0
+    while ob < len(block) and not (block[ob] == "{" and depth == 0):
+        depth += block[ob] in "(["
+        depth -= block[ob] in ")]"
+        ob += 1
+    cond = squash(block[m.end():ob])
+    cb = match_close(block, ob)
+    then_block = block[ob + 1:cb]
+    rest = block[cb + 1:].lstrip()
+    else_block = None
+    if rest.startswith("else"):
+        eb = rest.index("{")
+        else_block = rest[eb + 1:match_close(rest, eb)]
+    return m.start(), cond, then_block, else_block
+
+
+def translate_guard(body, sig, fns):
+    """verify_metadata: arm structure, the stripped-field guard, order of the legacy arm, the authenticated tail.
+    Private helpers are inlined first, so a split into several functions reads the same."""
+    cipher = param_by_type(sig, "&Aes256Gcm", "verify_metadata")
+    loc = param_by_type(sig, "&Path", "verify_metadata")
+    meta = param_by_type(sig, "&Metadata", "verify_metadata")
+    strict = param_by_type(sig, "bool", "verify_metadata")
+    body = inline_private(body, fns, keep={"metadata_auth_aad", "chunk_aad_version"})
+    body = canon(body, {cipher: "cipher", loc: "location", meta: "meta", strict: "strict"})
+    text = blank_strings(body)
+    mm = None
+    for m in re.finditer(r"\bmatch\s*\(", text):
+        cp = match_close(text, m.end() - 1)
+        tup = squash(text[m.end():cp])
+        if re.fullmatch(r"&?meta\.auth_nonce(\.as_ref\(\))?,&?meta\.auth_tag(\.as_ref\(\))?", tup):
+            mm = (m.start(), cp)
+            break
+    if not mm:
+        die("verify_metadata: no `match (meta.auth_nonce…, meta.auth_tag…)`")
+    ob = text.index("{", mm[1])
+    cb = match_close(text, ob)
+    bind = re.search(r"let\s*\(\s*(\w+)\s*,\s*(\w+)\s*\)\s*=\s*$", text[:mm[0]])
+    if not bind:
+        die("verify_metadata: the match does not bind `(nonce, tag)`")
+    arms = {}
+    for a in re.finditer(r"\(\s*(Some\s*\(\s*\w+\s*\)|None)\s*,\s*(Some\s*\(\s*\w+\s*\)|None)\s*\)\s*=>", text[ob:cb]):
+        key = ("Some" if a.group(1).startswith("Some") else "None", "Some" if a.group(2).startswith("Some") else "None")
+        if key in arms:
+            die(f"verify_metadata: arm {key} twice")
+        arms[key] = arm_body(text, ob + a.end(), cb)[0]
+    if set(arms) != {("Some", "Some"), ("None", "None"), ("None", "Some"), ("Some", "None")}:
+        die(f"verify_metadata: expected the four (nonce, tag) arms, found {sorted(arms)}")
+    if re.search(r"\b(return|Err|Ok)\b", arms[("Some", "Some")]):
+        die("verify_metadata: the (Some, Some) arm no longer just binds nonce and tag")
+    for key in (("None", "Some"), ("Some", "None")):
+        if "Err(" not in arms[key] or "Ok(" in arms[key]:
+            die(f"verify_metadata: arm {key} no longer rejects")
+    # ---- the unsealed arm -------------------------------------------------------------------------
+    A = arms[("None", "None")]
+    gpos, cond, then_b, else_b = reject_if(A, "verify_metadata (None, None) arm")
+    some = re.fullmatch(r"(?:meta\.\w+\.is_some\(\)\|\|)*meta\.\w+\.is_some\(\)", cond)
+    none = re.fullmatch(r"(?:meta\.\w+\.is_none\(\)&&)*meta\.\w+\.is_none\(\)", cond)
+    if some and "Err(" in then_b and "Ok(" not in then_b:
+        rest = A
+    elif none and else_b is not None and "Err(" in else_b and "Ok(" not in else_b:
+        rest = A
+    else:
+        die("verify_metadata: the stripped-field guard is not the first test of the (None, None) arm")
+    fields = sorted(set(re.findall(r"meta\.(\w+)\.is_(?:some|none)\(\)", cond)))
+    ms = re.search(r"\bif\s+(!?)\s*strict\s*\{", rest)
+    if not ms:
+        die("verify_metadata: no strict-mode test in the (None, None) arm")
+    sb_end = match_close(rest, rest.index("{", ms.start()))
+    sblock = rest[ms.end():sb_end]
+    if ms.group(1) == "":
+        if "Err(" not in sblock or "Ok(" in sblock:
+            die("verify_metadata: strict mode no longer rejects unsealed documents")
+    else:
+        tail = rest[sb_end + 1:].lstrip()
+        if not tail.startswith("else") or "Err(" not in tail:
+            die("verify_metadata: strict mode no longer rejects unsealed documents")
+    pos = {"guard": gpos, "strict": ms.start()}
+    ma = re.search(r"chunk_aad_version\s*\(\s*meta\s*\)\s*\?", rest)
+    ml = re.search(r"Ok\s*\(\s*MetadataAuth::Legacy\s*\)", rest)
+    if not ma or not ml:
+        die("verify_metadata: legacy arm lost `chunk_aad_version(meta)?` or `Ok(MetadataAuth::Legacy)`")
+    pos["aadVersion"], pos["legacy"] = ma.start(), ml.start()
+    order = sorted(pos, key=pos.get)
     if order != ["guard", "strict", "aadVersion", "legacy"]:
         die(f"verify_metadata: legacy arm order changed: {order}")
-    # the two half-stripped arms must reject
-    for pat, what in ((r"\(\s*None\s*,\s*Some\s*\(\s*_\s*\)\s*\)\s*=>\s*\{\s*return\s+Err", "(None, Some(_))"),
-                      (r"\(\s*Some\s*\(\s*_\s*\)\s*,\s*None\s*\)\s*=>\s*\{\s*return\s+Err", "(Some(_), None)")):
-        if not re.search(pat, body):
-            die(f"verify_metadata: arm {what} no longer rejects")
-    # after the match: AAD, decrypt with `?`, aad-version check, Authenticated
-    tail = squash(body[body.index("};", cb) + 2:]) if "};" in body[cb:] else die("verify_metadata: match tail not found")
-    if not re.fullmatch(r"letaad=metadata_auth_aad\(location,meta\);letmutempty=\[\];cipher\.decrypt_inout_detached\(&Nonce::from\(\*\*nonce\),&aad,\(&mutempty\[\.\.\]\)\.into\(\),&Tag::from\(\*\*tag\),?\)\.map_err\(.*\)\?;chunk_aad_version\(meta\)\?;Ok\(MetadataAuth::Authenticated\)", tail):
-        die("verify_metadata: the authenticated tail (aad, decrypt?, chunk_aad_version?, Ok) changed")
+    if len(re.findall(r"\bOk\s*\(", rest)) != 1:
+        die("verify_metadata: the (None, None) arm accepts in more than one place")
+    # ---- the authenticated tail ---------------------------------------------------------------------
+    T = text[cb + 1:]
+    m1 = re.search(r"metadata_auth_aad\s*\(\s*location\s*,\s*meta\s*\)", T)
+    m2 = re.search(r"\bcipher\s*\.\s*decrypt_inout_detached\s*\(", T)
+    m4 = re.search(r"chunk_aad_version\s*\(\s*meta\s*\)\s*\?", T)
+    m5 = re.search(r"Ok\s*\(\s*MetadataAuth::Authenticated\s*\)\s*\}?\s*$", T.rstrip())
+    if not (m1 and m2 and m4 and m5):
+        die("verify_metadata: the authenticated tail (aad, decrypt, chunk_aad_version?, Ok(Authenticated)) changed")
+    pc = match_close(T, m2.end() - 1)
+    args = squash(T[m2.end():pc])
+    av = re.search(r"let\s+(\w+)\s*=\s*metadata_auth_aad", T)
+    aad_ok = (av and re.search(r"&" + re.escape(av.group(1)) + r"\b", args)) or "metadata_auth_aad(location,meta)" in args
+    if not aad_ok:
+        die("verify_metadata: decrypt_inout_detached is not given the metadata AAD")
+    if f"Nonce::from(**{bind.group(1)})" not in args or f"Tag::from(**{bind.group(2)})" not in args:
+        die("verify_metadata: decrypt_inout_detached is not given the document's auth_nonce / auth_tag")
+    # the verdict of the GMAC check must be propagated with `?`
+    k, depth = pc + 1, 0
+    while k < len(T) and not (T[k] == ";" and depth <= 0):
+        depth += T[k] in "([{"
+        depth -= T[k] in ")]}"
+        k += 1
+    chain = re.sub(r"[\s})]+", "", T[pc + 1:k].split("|")[-1]) if k < len(T) else ""
+    if not squash(T[pc + 1:k]).rstrip("})").endswith("?") and not chain.endswith("?"):
+        die("verify_metadata: the result of the metadata GMAC check is not propagated with `?`")
+    if not (m1.start() < m2.start() < k <= cb + len(T) and pc < m4.start() < m5.start()):
+        die("verify_metadata: order of the authenticated tail changed")
+    if re.search(r"\b(return\s+)?Ok\s*\(", T[:m5.start()]):
+        die("verify_metadata: the authenticated tail accepts before the checks")
     return fields
 
 
@@ -439,10 +814,11 @@ def main():
     except OSError as e:
         die(f"cannot read {path}: {e}")
 
+    fns = private_fns(src)
     body, msig = fn_body(src, "metadata_auth_aad")
-    layout = translate_meta_aad(body, msig)
+    layout = translate_meta_aad(body, msig, fns)
     cbody, csig = fn_body(src, "chunk_aad")
-    chunk_layout = translate_chunk_aad(cbody, csig)
+    chunk_layout = translate_chunk_aad(cbody, csig, fns)
     shapes = {}
     for h in ("push_bytes", "push_opt_str", "push_opt_u64", "push_opt_u8"):
         b, s = fn_body(src, h)
@@ -450,8 +826,8 @@ def main():
     nb, ns = fn_body(src, "derive_gcm_nonce")
     lo, hi, endian, add = translate_nonce(nb, ns)
     fields = translate_struct(src)
-    vb, _ = fn_body(src, "verify_metadata")
-    guard = translate_guard(vb)
+    vb, vsig = fn_body(src, "verify_metadata")
+    guard = translate_guard(vb, vsig, fns)
     legacy = const_val(src, "CHUNK_AAD_LEGACY")
     bound = const_val(src, "CHUNK_AAD_BOUND")
     default_chunk = const_val(src, "DEFAULT_CHUNK_SIZE")
